@@ -99,8 +99,22 @@ func (c03) Generate(r *core.Rng, run int, tier string) *core.History {
 	if len(bg.Inputs) < 2 {
 		return nil
 	}
+	// a second generator without the SafeCompact restriction: its texts are only formatted in compact mode
+	flags2 := flags
+	flags2.SafeCompact = false
+	g2 := gen.New(r.Sub("gen2"), flags2)
+	bg2 := newBaseGen(g2, sessCfgOf(h))
+	for i, n := 0, 1+r.Intn(3); i < n; i++ {
+		bg2.Add(1 + r.Intn(3))
+	}
+	compactOnly := map[int]bool{}
+	all := append([][]string(nil), bg.Inputs...)
+	for _, in := range bg2.Inputs {
+		compactOnly[len(all)] = true
+		all = append(all, in)
+	}
 	var texts []string
-	for _, in := range bg.Inputs {
+	for _, in := range all {
 		var lines []string
 		for _, s := range in {
 			if r.Bool(.3) {
@@ -120,7 +134,11 @@ func (c03) Generate(r *core.Rng, run int, tier string) *core.History {
 		case 0:
 			h.Events = append(h.Events, core.Event{Ev: "input", Text: texts[t]})
 		default:
-			h.Events = append(h.Events, core.Event{Ev: "format", Text: texts[t], N: int64(r.Intn(2))})
+			mode := int64(r.Intn(2))
+			if compactOnly[t] {
+				mode = 1
+			}
+			h.Events = append(h.Events, core.Event{Ev: "format", Text: texts[t], N: mode})
 		}
 	}
 	return h
